@@ -454,3 +454,15 @@ def _(e, c, a, raw):
     v = deref(e, a[0])
     if c.endswith('clone'): return clone_val(e, v)
     return clone_val(e, e.deref(v.slots[0]))
+
+# default trait methods that have no MIR body in the crates: PartialEq::ne, PartialOrd::{lt,le,gt,ge} via the local eq / partial_cmp
+@model('re:^<.* as PartialEq(<.*>)?>::ne$')
+def _(e, c, a, raw):
+    return b_not(e.call_path(e._call_crate, raw[:-4] + '::eq', a))
+@model('re:^<.* as PartialOrd(<.*>)?>::(lt|le|gt|ge)$')
+def _(e, c, a, raw):
+    op = raw.rsplit('::', 1)[1]
+    r = e.call_path(e._call_crate, raw[:-len(op) - 2] + '::partial_cmp', a)
+    if r.variant == 'None': return False
+    v = r.slots[0].variant
+    return {'lt': v == 'Less', 'le': v != 'Greater', 'gt': v == 'Greater', 'ge': v != 'Less'}[op]
